@@ -25,22 +25,22 @@ Lemma get_cons_skip g ks v vals c : c <> g -> get (g :: ks) (v :: vals) c = get 
 Proof. intros N. unfold get. simpl. destruct (eq_dec c g); [congruence|]. destruct (index_of c ks); reflexivity. Qed.
 
 (* ------------------------------------------------------------------ the loop of _project_step on vocabulary aggregates *)
-Definition agg_x (e : expr) : plx := match tr_expr false e with Ok x => x | _ => PLit VNull end.
+Definition agg_x (one : string) (e : expr) : plx := match tr_expr one false e with Ok x => x | _ => PLit VNull end.
 
-Lemma fold_project ops temps acc : forallb agg_vocab (map snd ops) = true ->
-  fold_left project_fold_step ops (Ok (temps, acc)) = Ok (temps, acc ++ map (fun ke => (fst ke, agg_x (snd ke))) ops).
+Lemma fold_project one ops temps acc names : forallb agg_vocab (map snd ops) = true ->
+  fold_left (project_fold_step one) ops (Ok (temps, acc, names)) = Ok (temps, acc ++ map (fun ke => (fst ke, agg_x one (snd ke))) ops, names).
 Proof.
   revert acc. induction ops as [|ke t IH]; intros acc V; [simpl; rewrite app_nil_r; reflexivity|].
   cbn [map forallb] in V. apply andb_true_iff in V. destruct V as [V1 V2].
-  destruct (agg_plx_value (snd ke) V1) as [x [T _]].
-  assert (project_fold_step (Ok (temps, acc)) ke = Ok (temps, acc ++ [(fst ke, x)])) as S1.
-  { unfold project_fold_step. cbn [rbind]. rewrite (agg_vocab_promote _ _ _ V1), T. reflexivity. }
+  destruct (agg_plx_value one (snd ke) V1) as [x [T _]].
+  assert (project_fold_step one (Ok (temps, acc, names)) ke = Ok (temps, acc ++ [(fst ke, x)], names)) as S1.
+  { unfold project_fold_step. cbn [rbind]. rewrite (agg_vocab_promote _ _ _ _ V1), T. reflexivity. }
   cbn [fold_left map]. rewrite S1, IH by exact V2. rewrite <- app_assoc. cbn [app]. unfold agg_x at 2. rewrite T. reflexivity.
 Qed.
 
 (* ------------------------------------------------------------------ temporary columns of a project / windowed extend *)
-Lemma req_temps_agg es : forallb agg_vocab es = true ->
-  req_temps es = if existsb needs_one es then [(one_col, CPlain (lit_int 1))] else [].
+Lemma req_temps_agg z o es : forallb agg_vocab es = true ->
+  req_temps z o es = if existsb needs_one es then [(o, CPlain (lit_int 1))] else [].
 Proof.
   intros V. unfold req_temps.
   assert (existsb needs_zero es = false) as Z.
@@ -58,60 +58,78 @@ Proof.
   - unfold with_columns_if. unfold pl_with_columns. f_equal. apply (rows_with_lit_temps t (kx :: tl) LT).
 Qed.
 
-(* what the rest of the step needs to know about the frame with its temporaries *)
-Record temps_ok (t : table) (temps : list (string * colx)) (need_one : bool) : Prop := {
+(* what the rest of the step needs to know about the frame with its temporaries: they are literal columns, named away
+   from the names in use (85ef226), and the column of ones -- when an aggregate counts rows -- holds ones *)
+Record temps_ok (temps : list (string * colx)) (used : list string) (one : string) (need_one : bool) : Prop := {
   to_lit : lit_temps temps;
-  to_res : forall k, In k (map fst temps) -> is_reserved k = true;
-  to_one : need_one = true -> last_for one_col temps = Some (one_col, CPlain (lit_int 1)) }.
+  to_fresh : forall k, In k (map fst temps) -> ~ In k used;
+  to_one : need_one = true -> last_for one temps = Some (one, CPlain (lit_int 1)) }.
 
-Lemma temps_one t temps need r : temps_ok t temps need -> need = true -> List.length r = List.length (cols t) ->
-  get (ext_cols (cols t) (map fst temps)) (temps_row t temps r) one_col = qn (inject_Z 1).
+Lemma temps_user temps used one need c : temps_ok temps used one need -> In c used -> ~ In c (map fst temps).
+Proof. intros TO I N. exact (to_fresh _ _ _ _ TO c N I). Qed.
+
+Lemma temps_one t temps used one need r : temps_ok temps used one need -> need = true -> List.length r = List.length (cols t) ->
+  get (ext_cols (cols t) (map fst temps)) (temps_row t temps r) one = qn (inject_Z 1).
 Proof. intros [LT _ O] N L. rewrite temps_row_get by assumption. rewrite (O N). reflexivity. Qed.
 
-Lemma argval_temps t temps need e r : temps_ok t temps need -> agg_vocab e = true -> List.length r = List.length (cols t) ->
-  (forall c, In c (expr_cols e) -> is_reserved c = false) ->
+Lemma argval_temps t temps used one need e r : temps_ok temps used one need -> agg_vocab e = true -> List.length r = List.length (cols t) ->
+  (forall c, In c (expr_cols e) -> In c used) ->
   argval e (ext_cols (cols t) (map fst temps)) (temps_row t temps r) = argval e (cols t) r.
 Proof.
-  intros [LT R _] V L NR. destruct e as [c|v|op [|a [|b rest]]]; cbn [agg_vocab] in V; try discriminate; try reflexivity.
+  intros TO V L NR. destruct e as [c|v|op [|a [|b rest]]]; cbn [agg_vocab] in V; try discriminate; try reflexivity.
   apply andb_true_iff in V. destruct V as [_ S]. destruct a as [c| |]; try discriminate.
-  cbn [argval eval_expr]. apply temps_row_get_user; try assumption. apply NR. cbn. auto.
+  cbn [argval eval_expr]. apply temps_row_get_user; [apply (to_lit _ _ _ _ TO)|exact L|].
+  apply (temps_user temps used one need c TO). apply NR. cbn. auto.
 Qed.
 
-Lemma key_of_temps t temps need ks r : temps_ok t temps need -> List.length r = List.length (cols t) ->
-  (forall c, In c ks -> is_reserved c = false) ->
+Lemma key_of_temps t temps used one need ks r : temps_ok temps used one need -> List.length r = List.length (cols t) ->
+  (forall c, In c ks -> In c used) ->
   key_of (ext_cols (cols t) (map fst temps)) ks (temps_row t temps r) = key_of (cols t) ks r.
-Proof. intros [LT R _] L NR. unfold key_of. apply map_ext_in. intros c I. apply temps_row_get_user; auto. Qed.
+Proof.
+  intros TO L NR. unfold key_of. apply map_ext_in. intros c I.
+  apply temps_row_get_user; [apply (to_lit _ _ _ _ TO)|exact L|]. apply (temps_user temps used one need c TO). auto.
+Qed.
 
 (* the value group_by().agg computes for one aggregate over the rows (with temporaries) of a group *)
-Lemma agg_over_temps t temps need e grp pos :
-  temps_ok t temps need -> agg_vocab e = true -> (uses_one e = true -> need = true) ->
+Lemma agg_over_temps t temps used one need e grp pos :
+  temps_ok temps used one need -> agg_vocab e = true -> (uses_one e = true -> need = true) ->
   (forall r, In r grp -> List.length r = List.length (cols t)) ->
-  (forall c, In c (expr_cols e) -> is_reserved c = false) ->
-  plx_at (ext_cols (cols t) (map fst temps)) (map (temps_row t temps) grp) pos (agg_x e) = agg_value fl_pandas (cols t) grp e.
+  (forall c, In c (expr_cols e) -> In c used) ->
+  plx_at (ext_cols (cols t) (map fst temps)) (map (temps_row t temps) grp) pos (agg_x one e) = agg_value fl_pandas (cols t) grp e.
 Proof.
-  intros TO V U W NR. destruct (agg_plx_value e V) as [x [T E]]. unfold agg_x. rewrite T.
+  intros TO V U W NR. destruct (agg_plx_value one e V) as [x [T E]]. unfold agg_x. rewrite T.
   rewrite E.
   - rewrite agg_value_unfold by exact V. f_equal. rewrite map_map. apply map_ext_in. intros r I.
     eapply argval_temps; eauto.
-  - intros Uo r I. apply in_map_iff in I. destruct I as [r0 [<- I0]]. eapply temps_one; eauto.
+  - intros Uo r I. apply in_map_iff in I. destruct I as [r0 [<- I0]]. eapply (temps_one t); eauto.
 Qed.
 
-(* ------------------------------------------------------------------ the step *)
-Lemma reserved_group_col : is_reserved project_group_col = true. Proof. reflexivity. Qed.
-Lemma reserved_one_col : is_reserved one_col = true. Proof. reflexivity. Qed.
-
-Lemma project_temps_ok t (ops : list (string * expr)) (gb : list string) : forallb agg_vocab (map snd ops) = true ->
-  let temps0 := match gb with [] => [(project_group_col, CPlain (lit_int 1))] | _ => [] end in
-  temps_ok t (temps0 ++ req_temps (map snd ops)) (existsb needs_one (map snd ops)).
+(* ------------------------------------------------------------------ the scratch names of a step *)
+(* l = the step's group_by / partition_by list: when it is empty a constant stand-in column is added first *)
+Lemma step_temps_ok (l : list string) base used (es : list expr) : forallb agg_vocab es = true ->
+  let T := fresh base used in
+  let names1 := match l with [] => T :: used | _ => used end in
+  let z := fresh zero_base names1 in
+  let o := fresh one_base (z :: names1) in
+  let temps := (match l with [] => [(T, CPlain (lit_int 1))] | _ => [] end) ++ req_temps z o es in
+  temps_ok temps used o (existsb needs_one es) /\ (l = [] -> last_for T temps = Some (T, CPlain (lit_int 1))).
 Proof.
-  intros V temps0. rewrite (req_temps_agg _ V). constructor.
+  intros V T names1 z o temps. unfold temps. rewrite (req_temps_agg _ _ _ V).
+  assert (~ In T used) as FT by (apply fresh_not_in).
+  assert (~ In o (z :: names1)) as FO by (apply fresh_not_in).
+  assert (forall c, In c used -> In c names1) as Sub by (intros c I; unfold names1; destruct l; [right|]; exact I).
+  split; [constructor|].
   - unfold lit_temps. apply Forall_app. split.
-    + unfold temps0. destruct gb; [|constructor]. constructor; [eexists; reflexivity|constructor].
-    + destruct (existsb needs_one (map snd ops)); [|constructor]. constructor; [eexists; reflexivity|constructor].
+    + destruct l; [|constructor]. constructor; [eexists; reflexivity|constructor].
+    + destruct (existsb needs_one es); [|constructor]. constructor; [eexists; reflexivity|constructor].
   - intros k I. rewrite map_app, in_app_iff in I. destruct I as [I|I].
-    + unfold temps0 in I. destruct gb; [|destruct I]. destruct I as [<-|[]]. reflexivity.
-    + destruct (existsb needs_one (map snd ops)); [|destruct I]. destruct I as [<-|[]]. reflexivity.
-  - intros N. rewrite N. rewrite last_for_app. reflexivity.
+    + destruct l; [|destruct I]. destruct I as [<-|[]]. exact FT.
+    + destruct (existsb needs_one es); [|destruct I]. destruct I as [<-|[]]. intros Iu. apply FO. right. apply Sub. exact Iu.
+  - intros N. rewrite N. rewrite last_for_app. cbn [last_for fst]. destruct (eq_dec o o); [reflexivity|congruence].
+  - intros ->. rewrite last_for_app. destruct (existsb needs_one es); cbn [last_for fst].
+    + destruct (eq_dec T o) as [E|_]; [exfalso; apply FO; right; left; exact E|].
+      destruct (eq_dec T T); [reflexivity|congruence].
+    + destruct (eq_dec T T); [reflexivity|congruence].
 Qed.
 
 Lemma needs_one_of_uses (ops : list (string * expr)) e : forallb agg_vocab (map snd ops) = true -> In e (map snd ops) -> uses_one e = true ->
@@ -132,17 +150,24 @@ Qed.
 Lemma project_step_same declared ops gb t t2 :
   good t -> declared = gb ++ map fst ops ->
   forallb agg_vocab (map snd ops) = true ->
-  (forall c, In c gb \/ In c (flat_map (fun ke => expr_cols (snd ke)) ops) -> is_reserved c = false) ->
+  (forall c, In c gb \/ In c (flat_map (fun ke => expr_cols (snd ke)) ops) -> In c (cols t)) ->
   (gb = [] -> rows t = [] -> forallb (fun ke => negb (mem (agg_of (snd ke)) ["sum"; "count"; "size"; "_size"])) ops = true) ->
-  pl_project_step declared ops gb t = Ok t2 -> t2 = sem_project fl_pandas ops gb t.
+  pl_project_step declared (cols t) ops gb t = Ok t2 -> t2 = sem_project fl_pandas ops gb t.
 Proof.
   intros [ND W] -> V NR GE H. unfold pl_project_step in H.
-  set (temps0 := match gb with [] => [(project_group_col, CPlain (lit_int 1))] | _ :: _ => [] end) in *.
-  set (temps := temps0 ++ req_temps (map snd ops)) in *.
-  pose proof (project_temps_ok t ops gb V) as TO. cbn zeta in TO. fold temps0 in TO. fold temps in TO.
+  set (used := cols t ++ map fst ops) in *.
+  set (G := fresh project_group_base used) in *.
+  set (names1 := match gb with [] => G :: used | _ :: _ => used end) in *.
+  set (z := fresh zero_base names1) in *.
+  set (o := fresh one_base (z :: names1)) in *.
+  set (temps0 := match gb with [] => [(G, CPlain (lit_int 1))] | _ :: _ => [] end) in *.
+  set (temps := temps0 ++ req_temps z o (map snd ops)) in *.
+  destruct (step_temps_ok gb project_group_base used (map snd ops) V) as [TO LG].
+  fold G names1 z o temps0 temps in TO, LG.
+  assert (forall c, In c (cols t) -> In c used) as SubU by (intros c I; unfold used; apply in_or_app; left; exact I).
   rewrite fold_project in H by exact V. cbn [rbind app] in H.
-  set (produced := map (fun ke => (fst ke, agg_x (snd ke))) ops) in *.
-  rewrite (with_columns_if_lits t temps (to_lit _ _ _ TO)) in H.
+  set (produced := map (fun ke => (fst ke, agg_x o (snd ke))) ops) in *.
+  rewrite (with_columns_if_lits t temps (to_lit _ _ _ _ TO)) in H.
   set (cs1 := ext_cols (cols t) (map fst temps)) in *.
   set (w1 := temps_row t temps) in *.
   assert (map fst produced = map fst ops) as MF by (unfold produced; rewrite map_map; reflexivity).
@@ -151,21 +176,20 @@ Proof.
             map (fun kx => plx_at cs1 (map w1 grp) pos (snd kx)) produced = map (fun ke => agg_value fl_pandas (cols t) grp (snd ke)) ops) as AG.
   { intros grp pos Sub. unfold produced. rewrite map_map. apply map_ext_in. intros ke Ike. cbn [snd].
     assert (In (snd ke) (map snd ops)) as Ie by (apply in_map; exact Ike).
-    apply (agg_over_temps t temps _ (snd ke) grp pos TO).
+    apply (agg_over_temps t temps used o _ (snd ke) grp pos TO).
     - rewrite forallb_forall in V. auto.
     - intros U. eapply needs_one_of_uses; eauto.
     - intros r I. apply width_row; auto.
-    - intros c Ic. apply NR. right. apply in_flat_map. exists ke. auto. }
+    - intros c Ic. apply SubU, NR. right. apply in_flat_map. exists ke. auto. }
   apply rbind_ok in H. destruct H as [r2 [H2 H]]. apply rbind_ok in H. destruct H as [r3 [H3 H]].
   unfold pl_group_agg in H2. cbn [cols rows] in H2.
   destruct (negb (nodupb _)) eqn:ENd in H2; [discriminate|]. apply negb_false_iff in ENd. apply nodupb_NoDup in ENd.
   inversion H2; subst r2; clear H2. rewrite MF in *.
   destruct gb as [|g gb'].
   - (* no group_by: the temporary constant group column *)
-    set (G := project_group_col) in *.
     assert (forall r, In r (rows t) -> key_of cs1 [G] (w1 r) = [qn (inject_Z 1)]) as KG.
-    { intros r I. unfold key_of. cbn [map]. f_equal. unfold cs1, w1. rewrite temps_row_get by (try apply (to_lit _ _ _ TO); apply width_row; auto).
-      unfold temps, temps0. rewrite (req_temps_agg _ V). destruct (existsb needs_one (map snd ops)); reflexivity. }
+    { intros r I. unfold key_of. cbn [map]. f_equal. unfold cs1, w1. rewrite temps_row_get by (try apply (to_lit _ _ _ _ TO); apply width_row; auto).
+      rewrite (LG eq_refl). reflexivity. }
     destruct (rows t) as [|x rest] eqn:ER.
     + (* empty input *)
       cbn [map distinct_keys rows] in H3.
@@ -201,7 +225,7 @@ Proof.
       * apply get_map_self; [exact NDk|]. unfold vals. rewrite !map_length. reflexivity.
   - (* group_by given *)
     assert (forall r, In r (rows t) -> key_of cs1 (g :: gb') (w1 r) = key_of (cols t) (g :: gb') r) as KG.
-    { intros r I. apply (key_of_temps t temps _ (g :: gb') r TO); [apply width_row; auto|]. intros c Ic. apply NR. left. exact Ic. }
+    { intros r I. apply (key_of_temps t temps used o _ (g :: gb') r TO); [apply width_row; auto|]. intros c Ic. apply SubU, NR. left. exact Ic. }
     assert (map (key_of cs1 (g :: gb')) (map w1 (rows t)) = map (key_of (cols t) (g :: gb')) (rows t)) as MK.
     { rewrite map_map. apply map_ext_in. exact KG. }
     rewrite MK in H3.
@@ -222,8 +246,8 @@ Proof.
     subst r3. inversion H. reflexivity.
 Qed.
 
-Lemma project_step_nodup declared (ops : list (string * expr)) gb t t2 :
-  forallb agg_vocab (map snd ops) = true -> pl_project_step declared ops gb t = Ok t2 -> NoDup (gb ++ map fst ops).
+Lemma project_step_nodup declared src (ops : list (string * expr)) gb t t2 :
+  forallb agg_vocab (map snd ops) = true -> pl_project_step declared src ops gb t = Ok t2 -> NoDup (gb ++ map fst ops).
 Proof.
   intros V H. unfold pl_project_step in H. rewrite fold_project in H by exact V. cbn [rbind app] in H.
   apply rbind_ok in H. destruct H as [r2 [H2 _]]. unfold pl_group_agg in H2.
